@@ -221,8 +221,10 @@ pub fn judge(case: &Case, acc: &mut Acc) {
         argv.push(inp.name.clone());
     }
     let exp = climodel::emulate(case.from, case.to, &case.inputs.iter().map(|i| i.name.clone()).collect::<Vec<_>>(), &files, &case.stdin, &StdoutKind::Pipe);
-    // FIFOs are fed only as far as the model says xt will get (an earlier failure means later FIFOs are never opened)
-    let reached = exp.inputs.len() + 1;
+    // FIFOs are fed only as far as the model says xt will get (an earlier failure means later FIFOs are never
+    // opened) - except with dozens of FIFOs, where every one gets its writer (a feeder whose FIFO is never
+    // opened gives up by itself after ten seconds): there the subject is the order of opening and closing
+    let reached = if case.inputs.len() >= 25 { usize::MAX } else { exp.inputs.len() + 1 };
     for (n, inp) in case.inputs.iter().enumerate() {
         if inp.kind == "fifo" && n < reached {
             match case.bursts {
@@ -251,7 +253,7 @@ pub fn judge(case: &Case, acc: &mut Acc) {
             StdinKind::FileAtOffset(whole, prefix.len() as u64)
         }
     };
-    let r = Run { bin: &procmon::release_bin(), argv: argv.clone(), cwd: sc.path(), stdin, stdout: StdoutKind::Pipe, wall_secs: 60, cpu_secs: 20 };
+    let r = Run { bin: &procmon::release_bin(), argv: argv.clone(), cwd: sc.path(), stdin, stdout: StdoutKind::Pipe, wall_secs: 30, cpu_secs: 20 };
     let out = if case.inputs.len() >= 25 { procmon::run_nofile(r, 20) } else { procmon::run(r) };
     for inp in &exp.inputs {
         acc.count(&format!("resolved_{}_{}", inp.1, inp.2));
@@ -264,6 +266,7 @@ pub fn judge(case: &Case, acc: &mut Acc) {
     }
     if matches!(out.status, procmon::Status::Timeout | procmon::Status::SpawnError(_)) {
         acc.inconclusive += 1;
+        acc.count("runs_ended_by_the_watchdog");
         return;
     }
     if let Err(e) = climodel::judge_run(&out, &exp) {
